@@ -652,3 +652,96 @@ def grid_stream(ctx, cuqi, B):
                     ctx.fail("tie:Abel1D:exactSolution:nodes", desc, [float(v) for v in ref[:6]], [float(v) for v in impl["xs"][:6]],
                              "the default exact solution is not sin(pi t) exp(-2t) sampled on the quadrature nodes h/2 + j h")
     B.add(lines, cb)
+
+
+# ----------------------------------------------------------------------------- accessor / setter histories (Model/C17_state.lean)
+def setter_histories(ctx, cuqi, B):
+    """histories of `tp.prior = …`, `tp.likelihood = …`, `tp.set_data(…)` on all six problems: after every call the
+    accessors and get_components() hand out the objects the state machine says (by identity), and posterior.logd is the
+    log-likelihood of the CURRENT likelihood plus the log-density of the CURRENT prior"""
+    import harness.props.c17 as H
+    from cuqi.testproblem import Deconvolution1D, Deconvolution2D, Heat1D, Poisson1D, Abel1D, WangCubic
+    from cuqi.distribution import Gaussian
+    rng = ctx.rng
+    builds = [("Deconvolution1D", lambda: Deconvolution1D(dim=6, PSF=np.array([1.0, 2.0, 4.0]), BC="zero", phantom=np.array([1.0, 3, 0, -2, 5, 1]), noise_std=0.25)),
+              ("Deconvolution2D", lambda: Deconvolution2D(dim=3, PSF=np.array([[0.0, 1, 0], [2, 3, 1], [0, 4, 0]]), phantom=np.arange(1.0, 10).reshape(3, 3), noise_std=0.25)),
+              ("Poisson1D", lambda: Poisson1D(dim=5, SNR=50)), ("Heat1D", lambda: Heat1D(dim=4, max_time=0.05, SNR=50)), ("Abel1D", lambda: Abel1D(dim=4, SNR=50)),
+              ("WangCubic", lambda: WangCubic(noise_std=0.5, data=0.0))]
+    lines, jobs = [], []
+    for name, build in builds:
+        for rep in range(2):
+            with quiet():
+                with H.scripted(500 + rep):
+                    tp = build()
+            n, m = tp.model.domain_dim, tp.model.range_dim
+            geom = tp.prior.geometry
+            objs = {0: tp.likelihood, 1: tp.likelihood.data, 2: tp.likelihood.model, 3: tp.prior}
+            state_ids = [0, 1, 2, 3]
+            nxt = 4
+            ops = []
+            x = np.linspace(0.3, 0.9, n)
+            for step in range(rng.randint(2, 6)):
+                kind = rng.choice(["P", "P", "L", "L", "D"])
+                d = {"problem": name, "history": ";".join(ops + [kind]), "step": step + 1}
+                try:
+                    with quiet():
+                        if kind == "P":
+                            p = Gaussian((step + 1) * 0.5 * np.ones(n), 1.0 + step, geometry=geom, name="x")
+                            objs[nxt] = p
+                            tp.prior = p
+                            ops.append(f"P{nxt}")
+                            nxt += 1
+                        elif kind == "L":
+                            newdata = np.asarray(H.A1(tp.data), dtype=float) * 0.5 + (step + 1)
+                            import copy as _copy
+                            newmodel = _copy.copy(tp.model)            # a distinct model object (same map)
+                            lik = Gaussian(newmodel, 0.5 + step, name="y").to_likelihood(newdata)
+                            objs[nxt], objs[nxt + 1], objs[nxt + 2] = lik, lik.data, lik.model
+                            tp.likelihood = lik
+                            ops.append(f"L{nxt},{nxt + 1},{nxt + 2}")
+                            nxt += 3
+                        else:
+                            refused = False
+                            try:
+                                tp.set_data(y=np.zeros(m))
+                            except Exception:
+                                refused = True
+                            ops.append("D")
+                            if not refused:
+                                ctx.disagree(f"tie:{name}:setters:set_data", d, "refused (target is a Posterior)", "accepted")
+                                ctx.fail(f"tie:{name}:setters:set_data", d, "set_data refused: the data of a constructed test problem are already set", "accepted",
+                                         "set_data on a constructed test problem silently changed/accepted new data")
+                except Exception as e:
+                    ctx.note(f"{name}: setter history stopped at {d}: {repr(e)[:100]}")
+                    break
+                # what the problem hands out now
+                with quiet():
+                    try:
+                        comp = tp.get_components()
+                        now = {"lik": tp.likelihood, "data": tp.data, "model": tp.model, "prior": tp.prior, "comp0": comp[0], "comp1": comp[1],
+                               "post.lik": tp.posterior.likelihood, "post.prior": tp.posterior.prior}
+                    except Exception as e:
+                        ctx.note(f"{name}: accessors raised at {d}: {repr(e)[:100]}")
+                        break
+                    try:
+                        lp = float(np.asarray(tp.posterior.logd(x)).ravel()[0])
+                        ll = float(np.asarray(tp.likelihood.logd(x)).ravel()[0]) + float(np.asarray(tp.prior.logd(x)).ravel()[0])
+                    except Exception:
+                        lp = ll = None
+                lines.append(f"hist 0,1,2,3 {';'.join(ops)}")
+                jobs.append((name, d, now, dict(objs), lp, ll))
+    def cb(outs):
+        for (name, d, now, objs, lp, ll), o in zip(jobs, outs):
+            ctx.case("setter-history", d)
+            r = H.kv(o)
+            want = {"lik": int(r["lik"]), "data": int(r["data"]), "model": int(r["model"]), "prior": int(r["prior"]),
+                    "comp0": int(r["comp"].split(",")[0]), "comp1": int(r["comp"].split(",")[1]), "post.lik": int(r["lik"]), "post.prior": int(r["prior"])}
+            for k, oid in want.items():
+                if now[k] is not objs[oid]:
+                    key = f"{name}:setters:{k}"
+                    ctx.disagree("tie:" + key, d, f"object #{oid}", type(now[k]).__name__, f"{k} after the history is not the object the state machine gives")
+                    ctx.fail("tie:" + key, d, f"the object assigned last (#{oid})", "another object",
+                             f"after the call history, {k} handed out by the problem is not the likelihood's / the last assigned object: model, data, likelihood, prior no longer refer to the same objects")
+            if lp is not None and ll is not None and np.isfinite(lp) and np.isfinite(ll) and not H.close(lp, ll, 1e-9):
+                ctx.fail(f"{name}:setters:posterior.logd", d, ll, lp, "posterior.logd is not the current likelihood's log-likelihood plus the current prior's log-density")
+    B.add(lines, cb)
